@@ -1,4 +1,5 @@
 //! vcore: shared machinery for the runtime-monitoring checks of serde-saphyr.
+pub mod aliasgen;
 pub mod budgetmodel;
 pub mod capped;
 pub mod errs;
